@@ -77,7 +77,7 @@ def run(rep, tier, seed, summary):
     r = vlib.reflect()
     cases = r["init_cdb"]
     body = "; ".join("(%d, %s)" % (v, ("Ok %d%%nat" % x) if k == "ok" else "Raise %s" % vlib.cexn(x)) for v, k, x in cases)
-    text = ("From Coq Require Import String.\nFrom PS Require Import Base.Bytes Base.Result Model.CorrUtil Model.Command Gen.Misc Proofs.Opcodes.\n"
+    text = ("From Coq Require Import String.\nFrom PS Require Import Base.Bytes Base.Result Model.CorrUtil Model.Command Model.InitCdb Gen.Misc Proofs.Opcodes.\n"
             "Open Scope N_scope.\nDefinition cases : list (N * result nat) := [%s].\n"
             "Eval vm_compute in (mismatches (fun c => result_eqb Nat.eqb (init_cdb (fst c)) (snd c)) cases).\n" % body)
     bad = None
